@@ -137,9 +137,12 @@ pub fn babai_reduce_i32(
     let g_ntt: Polynomial<U32Field> = g.map(|&i| U32Field::new(i)).fft();
 
     let bitsize = |itr: IntoIter<i32>| {
-        (itr.map(|i| i.abs()).max().unwrap() * 2)
-            .ilog2()
-            .next_multiple_of(8) as usize
+        let max = itr.map(|i| i.abs()).max().unwrap();
+        if max == 0 {
+            0
+        } else {
+            (max * 2).ilog2().next_multiple_of(8) as usize
+        }
     };
     let size = usize::max(
         bitsize(
